@@ -298,8 +298,11 @@ def durable_execution(
             operations={},
             service_client=service_client,
             # If there are operations other than the initial EXECUTION one, current state is in replay mode
+            # more than the EXECUTION operation - in this payload or in the pages still to be
+            # fetched - means an earlier invocation already ran part of the workflow
             replay_status=ReplayStatus.REPLAY
             if len(invocation_input.initial_execution_state.operations) > 1
+            or invocation_input.initial_execution_state.next_marker
             else ReplayStatus.NEW,
         )
 
